@@ -82,6 +82,7 @@ package decimal
 //@   ensures[under,C01,C02,C04] exp < MinExp ==> z.form == zero && z.acc == (z.neg ? 1 : 0 - 1) && z.mant == old(z.mant)
 //@   ensures[over,C01,C02,C04]  exp > MaxExp ==> z.form == inf && z.acc == (z.neg ? 0 - 1 : 1) && z.mant == old(z.mant)
 //@   ensures[form,C08] z.form <= 2 && 0 - 1 <= z.acc && z.acc <= 1
+//@   ensures[zero,C02,C04] z.form == zero ==> exp < MinExp && z.acc != 0
 //@   ensures[buffer,C18] z.mant.arr == old(z.mant.arr) && z.mant.off == old(z.mant.off) && cap(z.mant) == old(cap(z.mant))
 //@   ensures[shape,C08] z.form == finite ==> mantok(z) && 19*len(z.mant) < z.prec + 19 && (19*len(z.mant) > z.prec ==> z.mant[0] % p10(19*len(z.mant) - z.prec) == 0)
 //@   ensures[rounded,C01,C02] MinExp <= exp && exp <= MaxExp ==> rounded(z, old(V(z.mant)), old(len(z.mant)), exp, sbit != 0)
@@ -112,6 +113,7 @@ package decimal
 //@   requires[wf]    z != nil && z.prec >= 1 && z.mode <= 5 && finop(x) && finop(y) && sep(z, x) && sep(z, y) && gapok(x, y)
 //@   modifies z.acc, z.exp, z.form, z.mant, memcap(z.mant)
 //@   ensures[form,C08] (z.form == finite || z.form == zero || z.form == inf) && 0 - 1 <= z.acc && z.acc <= 1
+//@   ensures[underflow,C02,C04] z.form == zero ==> z.acc != 0
 //@   ensures[shape,C08] z.form == finite ==> mantok(z) && 19*len(z.mant) < z.prec + 19 && (19*len(z.mant) > z.prec ==> z.mant[0] % p10(19*len(z.mant) - z.prec) == 0)
 //@   ensures[buffer,C18] (z.mant.arr == old(z.mant.arr) && z.mant.off == old(z.mant.off) && cap(z.mant) == old(cap(z.mant))) || fresh(z.mant)
 //@   hint[entry] V_ge_P(x.mant, 0, len(x.mant))
@@ -137,6 +139,7 @@ package decimal
 //@   requires[order] absgt(x, y) || abseq(x, y)
 //@   modifies z.acc, z.exp, z.form, z.neg, z.mant, memcap(z.mant)
 //@   ensures[form,C08] (z.form == finite || z.form == zero || z.form == inf) && 0 - 1 <= z.acc && z.acc <= 1
+//@   ensures[underflow,C02,C04] !old(abseq(x, y)) && z.form == zero ==> z.acc != 0
 //@   ensures[shape,C08] z.form == finite ==> mantok(z) && 19*len(z.mant) < z.prec + 19 && (19*len(z.mant) > z.prec ==> z.mant[0] % p10(19*len(z.mant) - z.prec) == 0)
 //@   ensures[buffer,C18] (z.mant.arr == old(z.mant.arr) && z.mant.off == old(z.mant.off) && cap(z.mant) == old(cap(z.mant))) || fresh(z.mant)
 //@   ensures[cancel,C01,C02,C04] old(abseq(x, y)) ==> z.form == zero && z.acc == 0 && z.neg == false
@@ -165,6 +168,7 @@ package decimal
 //@   requires[wf]    z != nil && z.prec >= 1 && z.mode <= 5 && finop(x) && finop(y) && sep(z, x) && sep(z, y) && len(x.mant) <= 10000000 && len(y.mant) <= 10000000
 //@   modifies z.acc, z.exp, z.form, z.mant, memcap(z.mant)
 //@   ensures[form,C08] (z.form == finite || z.form == zero || z.form == inf) && 0 - 1 <= z.acc && z.acc <= 1
+//@   ensures[underflow,C02,C04] z.form == zero ==> z.acc != 0
 //@   ensures[shape,C08] z.form == finite ==> mantok(z) && 19*len(z.mant) < z.prec + 19 && (19*len(z.mant) > z.prec ==> z.mant[0] % p10(19*len(z.mant) - z.prec) == 0)
 //@   ensures[buffer,C18] (z.mant.arr == old(z.mant.arr) && z.mant.off == old(z.mant.off) && cap(z.mant) == old(cap(z.mant))) || fresh(z.mant)
 //@   hint[entry] V_ge_P(x.mant, 0, len(x.mant))
@@ -180,6 +184,7 @@ package decimal
 //@   requires[wf]    z != nil && z.prec >= 1 && z.prec <= 1000000000 && z.mode <= 5 && finop(x) && finop(y) && sep(z, x) && sep(z, y) && len(x.mant) <= 10000000 && len(y.mant) <= 10000000
 //@   modifies z.acc, z.exp, z.form, z.mant, memcap(z.mant)
 //@   ensures[form,C08] (z.form == finite || z.form == zero || z.form == inf) && 0 - 1 <= z.acc && z.acc <= 1
+//@   ensures[underflow,C02,C04] z.form == zero ==> z.acc != 0
 //@   ensures[shape,C08] z.form == finite ==> mantok(z) && 19*len(z.mant) < z.prec + 19 && (19*len(z.mant) > z.prec ==> z.mant[0] % p10(19*len(z.mant) - z.prec) == 0)
 //@   ensures[buffer,C18] (z.mant.arr == old(z.mant.arr) && z.mant.off == old(z.mant.off) && cap(z.mant) == old(cap(z.mant))) || fresh(z.mant)
 //@   hint[entry] V_ge_P(x.mant, 0, len(x.mant))
@@ -191,3 +196,214 @@ package decimal
 //@   hint[after:copy#1] P_mono(len(y.mant), len(xadj)-1)
 //@   hint[entry] len(x.mant) > len(y.mant) ==> P_mono(len(y.mant), len(x.mant)-1)
 //@   tags support C08,C04
+
+// ---------------------------------------------------------------------------
+// Public API: attribute getters and simple setters
+
+//@ func (x *Decimal) Acc() Accuracy
+//@   pure
+//@   requires[wf] x != nil
+//@   ensures[value] result == x.acc
+//@ func (x *Decimal) Mode() RoundingMode
+//@   pure
+//@   requires[wf] x != nil
+//@   ensures[value] result == x.mode
+//@ func (x *Decimal) Prec() uint
+//@   pure
+//@   requires[wf] x != nil
+//@   ensures[value] result == x.prec
+//@ func (x *Decimal) IsInf() bool
+//@   pure
+//@   requires[wf] x != nil
+//@   ensures[value,C16] result <==> x.form == inf
+//@ func (x *Decimal) IsZero() bool
+//@   pure
+//@   requires[wf] x != nil
+//@   ensures[value,C16] result <==> x.form == zero
+//@ func (x *Decimal) Signbit() bool
+//@   pure
+//@   requires[wf] x != nil
+//@   ensures[value,C16] result <==> x.neg
+//@ func (x *Decimal) Sign() int
+//@   pure
+//@   requires[wf] x != nil
+//@   ensures[value,C16] result == (x.form == zero ? 0 : x.neg ? 0 - 1 : 1)
+//@ func (x *Decimal) ord() int
+//@   pure
+//@   requires[wf] x != nil && x.form <= 2
+//@   ensures[value,C16] result == (x.form == zero ? 0 : (x.form == finite ? 1 : 2) * (x.neg ? 0 - 1 : 1))
+
+//@ func (z *Decimal) SetMode(mode RoundingMode) *Decimal
+//@   requires[wf] z != nil
+//@   modifies z.mode, z.acc
+//@   ensures[value,C09] result == z && z.mode == mode && z.acc == 0
+
+//@ func (z *Decimal) SetInf(signbit bool) *Decimal
+//@   requires[wf] z != nil && z.mode <= 5
+//@   modifies z.acc, z.form, z.neg
+//@   ensures[value,C04] result == z && z.form == inf && z.neg == signbit && z.acc == 0
+//@   ensures[valid,C08] valid(z)
+
+//@ func (z *Decimal) Copy(x *Decimal) *Decimal
+//@   requires[wf] z != nil && opnd(x) && sep(z, x) && len(x.mant) <= 100000000
+//@   modifies z.prec, z.mode, z.acc, z.form, z.neg, z.exp, z.mant, memcap(z.mant)
+//@   ensures[result] result == z
+//@   ensures[attrs,C09] z.prec == old(x.prec) && z.mode == old(x.mode) && z.acc == old(x.acc) && z.form == old(x.form) && z.neg == old(x.neg)
+//@   ensures[finite,C20] old(x.form) == finite ==> z.exp == old(x.exp) && len(z.mant) == old(len(x.mant)) && V(z.mant) == old(V(x.mant)) && (forall k in 0..len(z.mant) :: z.mant[k] == old(x.mant[k]))
+//@   ensures[operands,C09,C18] x != z ==> unchanged(x)
+//@   ensures[buffer,C18] (z.mant.arr == old(z.mant.arr) && z.mant.off == old(z.mant.off) && cap(z.mant) == old(cap(z.mant))) || fresh(z.mant)
+//@   ensures[valid,C08] valid(z)
+
+//@ func (z *Decimal) Set(x *Decimal) *Decimal
+//@   requires[wf] z != nil && opnd(x) && sep(z, x) && z.mode <= 5 && len(x.mant) <= 100000000
+//@   modifies z.prec, z.acc, z.form, z.neg, z.exp, z.mant, memcap(z.mant)
+//@   ensures[result] result == z
+//@   ensures[prec,C09] z.prec == (old(z.prec) == 0 ? old(x.prec) : old(z.prec))
+//@   ensures[special,C04] old(x.form) != finite ==> z.form == old(x.form) && z.neg == old(x.neg) && z.acc == 0
+//@   ensures[sign,C01,C04] z != x ==> z.neg == old(x.neg)
+//@   ensures[self,C10] z == x ==> z.acc == 0 && z.form == old(z.form) && z.neg == old(z.neg) && z.exp == old(z.exp) && z.mant == old(z.mant)
+//@   ensures[form,C04] old(x.form) == finite ==> z.form == finite || z.form == inf
+//@   ensures[operands,C09,C18] x != z ==> unchanged(x)
+//@   ensures[buffer,C18] (z.mant.arr == old(z.mant.arr) && z.mant.off == old(z.mant.off) && cap(z.mant) == old(cap(z.mant))) || fresh(z.mant)
+//@   ensures[valid,C08] valid(z)
+//@   ensures[rounded,C01,C02] z != x && old(x.form) == finite && z.prec < old(x.prec) ==> rounded(z, old(V(x.mant)), old(len(x.mant)), old(x.exp), false)
+//@   ensures[exact,C01,C02] z != x && old(x.form) == finite && z.prec >= old(x.prec) ==> z.acc == 0 && z.form == finite && z.exp == old(x.exp) && V(z.mant) == old(V(x.mant)) && len(z.mant) == old(len(x.mant))
+
+//@ func (z *Decimal) Neg(x *Decimal) *Decimal
+//@   requires[wf] z != nil && opnd(x) && sep(z, x) && z.mode <= 5 && len(x.mant) <= 100000000
+//@   modifies z.prec, z.acc, z.form, z.neg, z.exp, z.mant, memcap(z.mant)
+//@   ensures[result] result == z
+//@   ensures[prec,C09] z.prec == (old(z.prec) == 0 ? old(x.prec) : old(z.prec))
+//@   ensures[sign,C01,C04] z.neg == !old(x.neg)
+//@   ensures[special,C04] old(x.form) != finite ==> z.form == old(x.form) && z.acc == 0
+//@   ensures[operands,C09,C18] x != z ==> unchanged(x)
+//@   ensures[valid,C08] valid(z)
+
+//@ func (z *Decimal) Abs(x *Decimal) *Decimal
+//@   requires[wf] z != nil && opnd(x) && sep(z, x) && z.mode <= 5 && len(x.mant) <= 100000000
+//@   modifies z.prec, z.acc, z.form, z.neg, z.exp, z.mant, memcap(z.mant)
+//@   ensures[result] result == z
+//@   ensures[prec,C09] z.prec == (old(z.prec) == 0 ? old(x.prec) : old(z.prec))
+//@   ensures[sign,C01,C04] z.neg == false
+//@   ensures[special,C04] old(x.form) != finite ==> z.form == old(x.form) && z.acc == 0
+//@   ensures[operands,C09,C18] x != z ==> unchanged(x)
+//@   ensures[valid,C08] valid(z)
+
+//@ func (z *Decimal) SetPrec(prec uint) *Decimal
+//@   requires[wf] z != nil && valid(z)
+//@   modifies z.prec, z.acc, z.form, z.exp, z.mant, mem(z.mant)
+//@   ensures[result] result == z
+//@   ensures[prec,C09] z.prec == (prec > MaxPrec ? MaxPrec : prec)
+//@   ensures[zero,C01,C02] prec == 0 && old(z.form) == finite ==> z.form == zero && z.acc == (z.neg ? 1 : 0 - 1)
+//@   ensures[special,C04] old(z.form) != finite ==> z.form == old(z.form) && z.acc == 0
+//@   ensures[valid,C08] valid(z)
+//@   ensures[rounded,C01,C02] prec != 0 && old(z.form) == finite && z.prec < old(z.prec) ==> rounded(z, old(V(z.mant)), old(len(z.mant)), old(z.exp), false)
+//@   ensures[exact,C01,C02] prec != 0 && old(z.form) == finite && z.prec >= old(z.prec) ==> z.acc == 0 && z.form == finite && z.exp == old(z.exp) && z.mant == old(z.mant)
+
+// ---------------------------------------------------------------------------
+// Comparison
+
+//@ func (x *Decimal) ucmp(y *Decimal) int
+//@   pure
+//@   requires[wf] finop(x) && finop(y)
+//@   ensures[range,C16] 0 - 1 <= result && result <= 1
+//@   ensures[value,C16,C01,assumed] (result > 0 <==> absgt(x, y)) && (result == 0 <==> abseq(x, y))
+//@   ensures[exp,C16] x.exp < y.exp ==> result == 0 - 1
+//@   ensures[exp2,C16] x.exp > y.exp ==> result == 1
+//@   ensures[self,C16] x == y ==> result == 0
+//@   loop 1 invariant[range] 0 <= i && i <= len(x.mant) && 0 <= j && j <= len(y.mant)
+//@   loop 1 invariant[self] x == y ==> i == j
+//@   tags safety C04,C16
+
+//@ func (x *Decimal) Cmp(y *Decimal) int
+//@   pure
+//@   requires[wf] opnd(x) && opnd(y)
+//@   ensures[range,C16] 0 - 1 <= result && result <= 1
+//@   ensures[classes,C16] let ox = (x.form == zero ? 0 : (x.form == finite ? 1 : 2) * (x.neg ? 0 - 1 : 1)) in
+//@                        let oy = (y.form == zero ? 0 : (y.form == finite ? 1 : 2) * (y.neg ? 0 - 1 : 1)) in
+//@                        (ox < oy ==> result == 0 - 1) && (ox > oy ==> result == 1) && (ox == oy && ox != 1 && ox != 0 - 1 ==> result == 0)
+//@   ensures[finite,C16] x.form == finite && y.form == finite && x.neg == y.neg ==>
+//@                        (absgt(x, y) ==> result == (x.neg ? 0 - 1 : 1)) && (abseq(x, y) ==> result == 0) && (!absgt(x, y) && !abseq(x, y) ==> result == (x.neg ? 1 : 0 - 1))
+//@   ensures[self,C16] x == y ==> result == 0
+//@   tags safety C04,C16
+
+// ---------------------------------------------------------------------------
+// Arithmetic
+
+//@ define binop_wf(z, x, y) = z != nil && opnd(x) && opnd(y) && sep(z, x) && sep(z, y) && z.mode <= 5 && z.prec <= 1000000000 && x.prec <= 1000000000 && y.prec <= 1000000000 && len(x.mant) <= 10000000 && len(y.mant) <= 10000000
+//@ define newprec2(z, x, y) = old(z.prec) == 0 ? max(old(x.prec), old(y.prec)) : old(z.prec)
+//@ define buffer_ok(z) = (z.mant.arr == old(z.mant.arr) && z.mant.off == old(z.mant.off) && cap(z.mant) == old(cap(z.mant))) || fresh(z.mant)
+
+//@ func (z *Decimal) Add(x, y *Decimal) *Decimal
+//@   requires[wf] binop_wf(z, x, y) && (x.form == finite && y.form == finite ==> gapok(x, y))
+//@   modifies z.prec, z.acc, z.form, z.neg, z.exp, z.mant, memcap(z.mant)
+//@   ensures[result] result == z
+//@   ensures[prec,C09] z.prec == newprec2(z, x, y)
+//@   ensures[operands,C09,C18] (x != z ==> unchanged(x)) && (y != z ==> unchanged(y))
+//@   ensures[buffer,C18] buffer_ok(z)
+//@   ensures[valid,C08] valid(z)
+//@   ensures[zeros,C04] old(x.form) == zero && old(y.form) == zero ==> z.form == zero && z.acc == 0 &&
+//@        (z.neg <==> ((old(x.neg) && old(y.neg)) || (old(x.neg) != old(y.neg) && z.mode == ToNegativeInf)))
+//@   ensures[infs,C04] (old(x.form) == inf ==> z.form == inf && z.neg == old(x.neg) && z.acc == 0) &&
+//@        (old(y.form) == inf && old(x.form) != inf ==> z.form == inf && z.neg == old(y.neg) && z.acc == 0)
+//@   ensures[zero_plus,C04] (old(x.form) == finite && old(y.form) == zero ==> z.neg == old(x.neg) && z.form != zero) &&
+//@        (old(x.form) == zero && old(y.form) == finite ==> z.neg == old(y.neg) && z.form != zero)
+//@   ensures[sign,C01,C04] old(x.form) == finite && old(y.form) == finite ==>
+//@        (old(x.neg) == old(y.neg) ==> z.neg == old(x.neg)) &&
+//@        (old(x.neg) != old(y.neg) && old(absgt(x, y)) ==> z.neg == old(x.neg)) &&
+//@        (old(x.neg) != old(y.neg) && old(absgt(y, x)) ==> z.neg == old(y.neg)) &&
+//@        (old(x.neg) != old(y.neg) && old(abseq(x, y)) ==> z.form == zero && z.acc == 0 && (z.neg <==> z.mode == ToNegativeInf))
+//@   panics[nan,C04] old(x.form) == inf && old(y.form) == inf && old(x.neg) != old(y.neg)
+//@   onpanic[valid,C04,C08] valid(z)
+
+//@ func (z *Decimal) Sub(x, y *Decimal) *Decimal
+//@   requires[wf] binop_wf(z, x, y) && (x.form == finite && y.form == finite ==> gapok(x, y))
+//@   modifies z.prec, z.acc, z.form, z.neg, z.exp, z.mant, memcap(z.mant)
+//@   ensures[result] result == z
+//@   ensures[prec,C09] z.prec == newprec2(z, x, y)
+//@   ensures[operands,C09,C18] (x != z ==> unchanged(x)) && (y != z ==> unchanged(y))
+//@   ensures[buffer,C18] buffer_ok(z)
+//@   ensures[valid,C08] valid(z)
+//@   ensures[zeros,C04] old(x.form) == zero && old(y.form) == zero ==> z.form == zero && z.acc == 0 &&
+//@        (z.neg <==> ((old(x.neg) && !old(y.neg)) || (old(x.neg) == old(y.neg) && z.mode == ToNegativeInf)))
+//@   ensures[infs,C04] (old(x.form) == inf ==> z.form == inf && z.neg == old(x.neg) && z.acc == 0) &&
+//@        (old(y.form) == inf && old(x.form) != inf ==> z.form == inf && z.neg == !old(y.neg) && z.acc == 0)
+//@   ensures[zero_minus,C01,C04] (old(x.form) == finite && old(y.form) == zero ==> z.neg == old(x.neg) && z.form != zero) &&
+//@        (old(x.form) == zero && old(y.form) == finite ==> z.neg == !old(y.neg) && z.form != zero)
+//@   ensures[zero_minus_rounded,C01,C02] old(x.form) == zero && old(y.form) == finite && z != y ==>
+//@        rounded(z, old(V(y.mant)), old(len(y.mant)), old(y.exp), false)
+//@   ensures[sign,C01,C04] old(x.form) == finite && old(y.form) == finite ==>
+//@        (old(x.neg) != old(y.neg) ==> z.neg == old(x.neg)) &&
+//@        (old(x.neg) == old(y.neg) && old(absgt(x, y)) ==> z.neg == old(x.neg)) &&
+//@        (old(x.neg) == old(y.neg) && old(absgt(y, x)) ==> z.neg == !old(y.neg)) &&
+//@        (old(x.neg) == old(y.neg) && old(abseq(x, y)) ==> z.form == zero && z.acc == 0 && (z.neg <==> z.mode == ToNegativeInf))
+//@   panics[nan,C04] old(x.form) == inf && old(y.form) == inf && old(x.neg) == old(y.neg)
+//@   onpanic[valid,C04,C08] valid(z)
+
+//@ func (z *Decimal) Mul(x, y *Decimal) *Decimal
+//@   requires[wf] binop_wf(z, x, y)
+//@   modifies z.prec, z.acc, z.form, z.neg, z.exp, z.mant, memcap(z.mant)
+//@   ensures[result] result == z
+//@   ensures[prec,C09] z.prec == newprec2(z, x, y)
+//@   ensures[operands,C09,C18] (x != z ==> unchanged(x)) && (y != z ==> unchanged(y))
+//@   ensures[buffer,C18] buffer_ok(z)
+//@   ensures[valid,C08] valid(z)
+//@   ensures[sign,C01,C04] z.neg == (old(x.neg) != old(y.neg))
+//@   ensures[specials,C04] (old(x.form) == inf || old(y.form) == inf ==> z.form == inf && z.acc == 0) &&
+//@        ((old(x.form) == zero || old(y.form) == zero) ==> z.form == zero && z.acc == 0)
+//@   panics[nan,C04] (old(x.form) == zero && old(y.form) == inf) || (old(x.form) == inf && old(y.form) == zero)
+//@   onpanic[valid,C04,C08] valid(z)
+
+//@ func (z *Decimal) Quo(x, y *Decimal) *Decimal
+//@   requires[wf] binop_wf(z, x, y)
+//@   modifies z.prec, z.acc, z.form, z.neg, z.exp, z.mant, memcap(z.mant)
+//@   ensures[result] result == z
+//@   ensures[prec,C09] z.prec == newprec2(z, x, y)
+//@   ensures[operands,C09,C18] (x != z ==> unchanged(x)) && (y != z ==> unchanged(y))
+//@   ensures[buffer,C18] buffer_ok(z)
+//@   ensures[valid,C08] valid(z)
+//@   ensures[sign,C01,C04] z.neg == (old(x.neg) != old(y.neg))
+//@   ensures[specials,C04] ((old(x.form) == zero || old(y.form) == inf) ==> z.form == zero && z.acc == 0) &&
+//@        ((old(x.form) == inf || old(y.form) == zero) ==> z.form == inf && z.acc == 0)
+//@   panics[nan,C04] (old(x.form) == zero && old(y.form) == zero) || (old(x.form) == inf && old(y.form) == inf)
+//@   onpanic[valid,C04,C08] valid(z)
